@@ -23,7 +23,16 @@ type layoutOpts struct {
 	// HugePct: percentage of layouts whose finest archive gets 2800-6500 slots (runs longer than any
 	// plausible bulk-read buffer)
 	HugePct int
+	// BigRatioPct: percentage of layouts (with >= 2 archives) whose first step ratio is one of 342..5500 (more
+	// finer slots per coarse slot than fit a 4 KiB page / 16 KiB / 64 KiB read), as in 1s:1h,10m:1d
+	BigRatioPct int
 }
+
+// thresholdSizes are slot counts at which page-, chunk- and batch-sized buffers of plausible implementations
+// end: 4 KiB, 8 KiB, 16 KiB, 32 KiB, 64 KiB, 128 KiB of 12-byte slots, and powers of two.
+var thresholdSizes = []int64{341, 342, 682, 683, 1024, 1365, 1366, 2048, 2730, 2731, 3072, 4096, 5461, 5462, 8192, 10922, 10923}
+
+var bigRatios = []int64{342, 360, 600, 683, 1024, 1366, 1440, 3600, 5462}
 
 func defaultLayoutOpts() layoutOpts {
 	return layoutOpts{MinArchives: 1, MaxArchives: 4, MaxPoints0: 400, AllowMultiPage: true, MaxRatio: 60}
@@ -37,10 +46,17 @@ func genLayout(t *rapid.T, o layoutOpts) Layout {
 	steps := make([]int64, k)
 	ratios := make([]int64, k) // ratios[i] = steps[i+1]/steps[i]
 	steps[0] = rapid.SampledFrom(stepChoices).Draw(t, "step0")
+	bigRatio := k >= 2 && o.BigRatioPct > 0 && rapid.IntRange(0, 99).Draw(t, "bigRatio") < o.BigRatioPct
 	for i := 1; i < k; i++ {
 		r := rapid.SampledFrom(ratioChoices).Draw(t, "ratio")
 		if o.MaxRatio > 0 && r > o.MaxRatio {
 			r = o.MaxRatio
+		}
+		if bigRatio && i == 1 {
+			r = rapid.SampledFrom(bigRatios).Draw(t, "bigRatioValue")
+		}
+		if bigRatio && i >= 2 && r > 4 {
+			r = 4 // keep every retention far below 2^30 (a big ratio followed by 60 x 60 would exceed it)
 		}
 		ratios[i-1] = r
 		steps[i] = steps[i-1] * r
@@ -83,7 +99,12 @@ func genLayout(t *rapid.T, o layoutOpts) Layout {
 		pts[i] = p
 	}
 	if o.HugePct > 0 && rapid.IntRange(0, 99).Draw(t, "huge") < o.HugePct {
-		pts[0] += rapid.Int64Range(2800, 6500).Draw(t, "hugeExtra")
+		if rapid.Bool().Draw(t, "hugeAtThreshold") {
+			// exactly at / one beyond a plausible buffer size
+			pts[0] = maxI64(pts[0], rapid.SampledFrom(thresholdSizes).Draw(t, "hugeThreshold")+rapid.Int64Range(0, 1).Draw(t, "hugeJitter"))
+		} else {
+			pts[0] += rapid.Int64Range(2800, 12000).Draw(t, "hugeExtra")
+		}
 		for i := 1; i < k; i++ {
 			if need := floorDiv(pts[i-1]*steps[i-1], steps[i]) + 1; pts[i] < need {
 				pts[i] = need
@@ -92,6 +113,9 @@ func genLayout(t *rapid.T, o layoutOpts) Layout {
 	}
 	l := Layout{Method: rapid.IntRange(1, 6).Draw(t, "method")}
 	for i := 0; i < k; i++ {
+		if i >= o.MinArchives && i > 0 && steps[i]*pts[i] > 1<<30 {
+			break // (valid by construction only while retentions fit; coarser archives beyond that are dropped)
+		}
 		l.Archives = append(l.Archives, Arch{Step: steps[i], Points: pts[i]})
 	}
 	switch rapid.IntRange(0, 5).Draw(t, "xffKind") {
@@ -245,4 +269,25 @@ func genWindow(t *rapid.T, l Layout, now int64, allowBad bool) Window {
 		from, until = until, from
 	}
 	return Window{ID: id, From: from, Until: until}
+}
+
+// genManyArchiveLayout: 5-30 archives (headers of 76-376 bytes, beyond any small fixed header buffer); steps
+// double or triple, a few points each.
+func genManyArchiveLayout(t *rapid.T) Layout {
+	l := Layout{Method: rapid.IntRange(1, 6).Draw(t, "method"), XFF: rapid.SampledFrom(xffChoices).Draw(t, "xff")}
+	n := rapid.IntRange(5, 30).Draw(t, "archiveCount")
+	step, prevRet := int64(1), int64(0)
+	for i := 0; i < n; i++ {
+		pts := rapid.Int64Range(3, 5).Draw(t, "fewPoints")
+		if step*pts <= prevRet {
+			pts = prevRet/step + 1
+		}
+		if step*pts > 1<<30 {
+			break
+		}
+		l.Archives = append(l.Archives, Arch{Step: step, Points: pts})
+		prevRet = step * pts
+		step *= int64(rapid.IntRange(2, 3).Draw(t, "stepRatio"))
+	}
+	return l
 }
